@@ -1,7 +1,7 @@
 (* C05 -- property theorems only.  Proofs live in C05/Proofs*.v. *)
 From Coq Require Import NArith List Bool.
 From DV Require Import Base.Outcome Base.Bytes Base.Names Base.PName
-  C05.Schema C05.Gen C05.Model C05.OptModel C05.SvcModel C05.SvcBuf C05.ProofsA C05.ProofsB C05.ProofsC C05.ProofsD C05.ProofsE C05.ProofsF C05.ProofsG C05.ProofsH C05.Proofs C05.ProofsI C05.ProofsJ C05.ProofsK C05.ProofsL C05.ProofsM.
+  C05.Schema C05.Gen C05.Model C05.OptModel C05.SvcModel C05.SvcBuf C05.TxtModel C05.ProofsA C05.ProofsB C05.ProofsC C05.ProofsD C05.ProofsE C05.ProofsF C05.ProofsG C05.ProofsH C05.Proofs C05.ProofsI C05.ProofsJ C05.ProofsK C05.ProofsL C05.ProofsM C05.ProofsN.
 Import ListNotations.
 Local Open Scope N_scope.
 
@@ -361,3 +361,19 @@ Theorem C05_inbuf_refines_list_bounded : forall s,
   end.
 Proof. exact inbuf_refines_list_bounded. Qed.
 Print Assumptions C05_inbuf_refines_list_bounded.
+
+(* TxtBuilder, the alternative constructor of TXT data: whatever is appended (slices,
+   single octets, whole character strings), in whatever pieces, no character string
+   of the result exceeds 255 octets, the text of the result is the concatenation of
+   what was appended, and the result is never empty -- so it is a value the TXT row
+   accepts, composes and parses back *)
+Theorem C05_txt_build_ok : forall ops, Forall op_ok ops ->
+  Forall (fun s => (length s <= 255)%nat) (txt_build ops) /\
+  concat (txt_build ops) = concat (map op_text ops) /\ txt_build ops <> [].
+Proof. exact txt_build_ok. Qed.
+Print Assumptions C05_txt_build_ok.
+
+Theorem C05_txt_build_wf : forall ops, Forall op_ok ops -> Forall (fun b => wf_bytes (op_text b)) ops ->
+  wf_fval true FCharStrs (VStrs (txt_build ops)) = true.
+Proof. exact txt_build_wf. Qed.
+Print Assumptions C05_txt_build_wf.
